@@ -108,11 +108,44 @@ pub struct WCase {
     comment: String,
 }
 
+/// kinds 5 and 6: the name is given to raw_copy_file_rename; the source entry's own name is ASCII without
+/// the UTF-8 flag (kind 5) or CP437 bytes without the flag (kind 6)
+fn check_raw_rename(c: &WCase) -> Result<(), String> {
+    use std::io::Write;
+    let mut src_e = EntrySpec::simple(if c.kind % 7 == 5 { &b"source.txt"[..] } else { &b"Cura\x87ao.txt"[..] }, 8, Content::Text { seed: 5, len: 300 });
+    src_e.utf8 = false;
+    let src = build::build(&ArchiveSpec::plain(vec![src_e])).map_err(|e| format!("harness: {e}"))?;
+    let mut sza = zip::ZipArchive::new(Cursor::new(&src.bytes[..])).map_err(|e| format!("harness: {e}"))?;
+    let mut sink = Cursor::new(Vec::new());
+    {
+        let mut w = std::mem::ManuallyDrop::new(zip::ZipWriter::new(&mut sink));
+        w.start_file("ascii-first", zip::write::FileOptions::default().last_modified_time(zip::DateTime::default())).map_err(|e| format!("harness: {e}"))?;
+        w.write_all(b"x").map_err(|e| format!("harness: {e}"))?;
+        let f = sza.by_index_raw(0).map_err(|e| format!("harness: {e}"))?;
+        w.raw_copy_file_rename(f, c.name.clone()).map_err(|e| format!("raw_copy_file_rename refused: {e}"))?;
+        w.finish().map_err(|e| format!("finish: {e}"))?;
+    }
+    let bytes = sink.into_inner();
+    let pp = parse::parse(&bytes[..], parse::Opts::strict()).map_err(|e| format!("strict parser (raw copy renamed to {:?}): {e}", c.name))?;
+    if pp.entries[1].name != c.name.as_bytes() {
+        return Err(format!("raw copy renamed to {:?}: stored name bytes are not the UTF-8 of the given name", c.name));
+    }
+    let mut za = zip::ZipArchive::new(Cursor::new(&bytes[..])).map_err(|e| format!("reopen: {e}"))?;
+    let f = za.by_index_raw(1).map_err(|e| format!("by_index_raw: {e}"))?;
+    if f.name() != c.name {
+        return Err(format!("raw copy renamed to {:?} reads back as {:?}", c.name, f.name()));
+    }
+    Ok(())
+}
+
 fn check_writer(c: &WCase) -> Result<(), String> {
+    if c.kind % 7 >= 5 {
+        return check_raw_rename(c);
+    }
     let mut o = Opts::plain(Method::Deflated);
     o.password = c.password.clone();
     let body = vec![Content::Bytes(b"some body".to_vec())];
-    let op = match c.kind % 5 {
+    let op = match c.kind % 7 {
         0 => Op::File { name: c.name.clone(), opts: o, chunks: body },
         1 => Op::Dir { name: c.name.clone(), opts: Opts::plain(Method::Stored) },
         2 => Op::Symlink { name: c.name.clone(), target: "tgt".into(), opts: Opts::plain(Method::Stored) },
@@ -139,7 +172,7 @@ fn check_writer(c: &WCase) -> Result<(), String> {
 }
 
 pub fn run(ctx: &mut Ctx) {
-    ctx.rule("bytes1: all 256 single-byte names and comments x flag set/clear (exhaustive); bytes2: all 65536 two-byte names x flag set/clear (exhaustive); random: byte strings up to 64 KiB incl. invalid UTF-8 (overlong, surrogates, truncated); writer: arbitrary Rust strings through every entry-creating call incl. the encryption option. Oracle: CP437 table from CPython / std from_utf8_lossy (cross-checked against CPython's utf-8 'replace' decoder on a sample). Non-trivial = at least one byte >= 0x80. Entries optionally carry well-formed third-party extra records (Info-ZIP Unicode Path/Comment with matching CRC and a different text, extended timestamp, Unix, NTFS): decoding must still follow the flag and the header bytes. Seekable reader, streaming reader and stream metadata.");
+    ctx.rule("bytes1: all 256 single-byte names and comments x flag set/clear (exhaustive); bytes2: all 65536 two-byte names x flag set/clear (exhaustive); random: byte strings up to 64 KiB incl. invalid UTF-8 (overlong, surrogates, truncated); writer: arbitrary Rust strings through every entry-creating call incl. the encryption option and raw_copy_file_rename (source names unflagged ASCII / CP437). Oracle: CP437 table from CPython / std from_utf8_lossy (cross-checked against CPython's utf-8 'replace' decoder on a sample). Non-trivial = at least one byte >= 0x80. Entries optionally carry well-formed third-party extra records (Info-ZIP Unicode Path/Comment with matching CRC and a different text, extended timestamp, Unix, NTFS): decoding must still follow the flag and the header bytes. Seekable reader, streaming reader and stream metadata.");
     ctx.assume("String::from_utf8_lossy is the reference for 'invalid sequences replaced'; a sample is cross-checked against CPython's decoder");
     const B: u64 = 1024;
     // bytes1 + bytes2 : index space = flag(2) x (256 + 65536)
@@ -230,13 +263,13 @@ pub fn run(ctx: &mut Ctx) {
         nw,
         &|| {
             (prop_oneof![3 => "\\PC{0,20}", 2 => "[a-zé漢😀/\\\\ ]{0,16}", 1 => ".{0,30}", 1 => gen::name()], any::<u8>(), prop_oneof![2 => Just(None), 1 => gen::password().prop_map(Some)], "\\PC{0,12}")
-                .prop_map(|(name, kind, password, comment)| WCase { name, kind, password: if kind % 5 == 0 { password } else { None }, comment: String::from_utf8(gen::sanitize_comment(comment.into_bytes())).unwrap_or_default() })
+                .prop_map(|(name, kind, password, comment)| WCase { name, kind, password: if kind % 7 == 0 { password } else { None }, comment: String::from_utf8(gen::sanitize_comment(comment.into_bytes())).unwrap_or_default() })
                 .boxed()
         },
         &|c: &WCase, info: &mut Info| {
             info.nontrivial = !c.name.is_ascii();
             info.label_if(c.password.is_some() && !c.name.is_ascii(), "encrypted+non-ascii");
-            info.label(["file", "dir", "symlink", "extra", "aligned"][(c.kind % 5) as usize]);
+            info.label(["file", "dir", "symlink", "extra", "aligned", "raw-copy-renamed", "raw-copy-of-cp437-renamed"][(c.kind % 7) as usize]);
             Verdict::from_result(catch(|| check_writer(c)).unwrap_or_else(|p| Err(format!("PANIC: {p}"))))
         },
     );
